@@ -566,9 +566,10 @@ func main() {
 	})
 	knownSeen := map[string]int{}
 	type group struct {
-		key   string
-		first fail
-		n     int
+		key     string
+		first   fail
+		n       int
+		tagsets []string
 	}
 	groups := map[string]*group{}
 	var order []string
@@ -577,7 +578,7 @@ func main() {
 			knownSeen[k.ID]++
 			continue
 		}
-		key := f.Class + " " + strings.Join(f.Tags, ",")
+		key := f.Class
 		g := groups[key]
 		if g == nil {
 			g = &group{key: key, first: f}
@@ -585,6 +586,9 @@ func main() {
 			order = append(order, key)
 		}
 		g.n++
+		if ts := strings.Join(f.Tags, ","); len(g.tagsets) < 4 && !containsStr(g.tagsets, ts) {
+			g.tagsets = append(g.tagsets, ts)
+		}
 	}
 	var kfLines []string
 	for _, k := range kf.Findings {
@@ -605,9 +609,9 @@ func main() {
 		path := filepath.Join(verifRoot, "replay", fmt.Sprintf("%s-%x.json", id, h[:5]))
 		rb, _ := json.MarshalIndent(map[string]any{"property": id, "tier": tier, "class": g.first.Class, "tags": g.first.Tags, "scenario": g.first.Scenario, "index": g.first.Index, "case": g.first.Case, "detail": g.first.Detail, "cases_in_group": g.n}, "", " ")
 		os.WriteFile(path, rb, 0o644)
-		if n < 40 {
+		if n < 15 {
 			fmt.Printf("VIOLATION property=%s replay=%s\n", id, path)
-			fmt.Printf("  class=%s tags=%v cases=%d\n", g.first.Class, g.first.Tags, g.n)
+			fmt.Printf("  class=%s cases=%d tagsets=%q\n", g.first.Class, g.n, g.tagsets)
 			if os.Getenv("VERIF_VERBOSE") != "" || n < 3 {
 				fmt.Printf("  %s\n", strings.ReplaceAll(firstN(g.first.Detail, 400), "\n", "\n  "))
 				if g.first.Case != "" {
@@ -619,8 +623,8 @@ func main() {
 			vsamples = append(vsamples, map[string]any{"violation": g.first.Class, "case": g.first.Case})
 		}
 	}
-	if len(order) > 40 {
-		fmt.Printf("  ... %d more violation groups (see %s)\n", len(order)-40, filepath.Join(verifRoot, "replay"))
+	if len(order) > 15 {
+		fmt.Printf("  ... %d more violation groups (see %s)\n", len(order)-15, filepath.Join(verifRoot, "replay"))
 	}
 
 	// ---- evidence
@@ -681,6 +685,15 @@ func main() {
 		os.RemoveAll(work)
 		os.Exit(1)
 	}
+}
+
+func containsStr(l []string, s string) bool {
+	for _, x := range l {
+		if x == s {
+			return true
+		}
+	}
+	return false
 }
 
 func firstN(s string, n int) string {
